@@ -211,6 +211,10 @@ package cache
 //@   loop 1 invariant -1 <= rangeindex && rangeindex < len(opts) && (rangeindex == -1 ==> o.Expire == 0 && o.NotFoundExpire == 0)
 //@   ensures [positive-expiries] result.Expire > 0 && result.NotFoundExpire > 0
 //@   ensures [defaults-when-unset] len(opts) == 0 ==> result.Expire == defaultExpire && result.NotFoundExpire == defaultNotFoundExpire
+// a configured (positive) expiry is kept exactly as configured - sub-second ones included: the TTL rounding to whole
+// seconds happens where the entry is stored, not here (the value the options left is the one at the last arrival at
+// the loop head, which is where the loop is left)
+//@   ensures [configured-expiry-kept] (at_head(o.Expire) > 0 ==> result.Expire == at_head(o.Expire)) && (at_head(o.NotFoundExpire) > 0 ==> result.NotFoundExpire == at_head(o.NotFoundExpire))
 //@ func WithExpire$1
 //@   prop C06
 //@   requires o != nil
